@@ -6,4 +6,5 @@ Extraction "../ocaml/gen/ModelC15.ml"
   tlv tlv_dec enc_items dec_items sign_to_der signed_from_der get_details
   tbs_cert_layout req_info_layout tbs_crl_layout entry_layout
   tbs_cert_values req_info_values tbs_crl_values revoked_entry integer_value integer_content
-  time_value gen_time_value find_revoked alg_sm2sm3.
+  time_value gen_time_value find_revoked alg_sm2sm3
+  ext_ex_emit ext_emit ext_from_der find_by_issuer_serial octets_eqb.
